@@ -49,13 +49,17 @@ HOSTILE = [
     '\\u0022, \\u0022k' + MARK + '\\u0022: 1',
     MARK + '\\',
     'nul\x00' + MARK,
+    'nel\x85' + MARK + '\x85neighbor 10.0.0.2 receive update announced route 6.6.6.0/24 next-hop 6.6.6.6 ' + MARK,
+    'ls\u2028' + MARK + '\u2029ps',
+    'csi\x9b' + MARK + '\x9b31m',
+    'ff\x0c' + MARK + '\x0bvt\x1c\x1d\x1e',
 ]
 GENS = ['corpus', 'corpus', 'corpus-attr', 'corpus-splice', 'valid-unusual', 'bgpls-names', 'bgpls-names', 'srpolicy-names', 'unknown-attr', 'operational', 'refresh', 'notification']
 ENVELOPE = {'exabgp', 'time', 'host', 'pid', 'ppid', 'counter', 'type'}
 
 
 def counts(tier: str):
-    return (300, 75.0) if tier == 'quick' else (20000, 900.0)
+    return (1200, 75.0) if tier == 'quick' else (40000, 900.0)
 
 
 def generate(rng, tier: str, index: int) -> dict:
@@ -75,7 +79,8 @@ def generate(rng, tier: str, index: int) -> dict:
         scripts.append(items)
     version = rng.choice([4, 4, 6])
     return {'micro_seed': rng.randint(1, 1 << 48), 'knobs': knobs(rng, env={'api.version': version}), 'version': version, 'kinds': kinds, 'scripts': scripts, 'gap': rng.choice([0.02, 0.1]), 'split_p': rng.choice([0.0, 0.3]),
-            'consolidate': rng.chance(0.2), 'packets': rng.chance(0.2)}  # fmt: skip
+            'consolidate': rng.chance(0.2), 'packets': rng.chance(0.3),
+            'pipe': rng.choice([None, None, {'capacity': rng.choice([100, 1000, 4096, 8192]), 'refill_every': rng.choice([0.01, 0.05, 0.3]), 'helper': rng.choice(['hj', 'ht', 'both'])}])}  # fmt: skip
 
 
 def hostile(item: dict, limit: int = 250) -> bytes:
@@ -186,6 +191,20 @@ def execute(plan: dict) -> dict:
     hj, ht = w.procs.helper('hj'), w.procs.helper('ht')
     w.net.split_p = plan.get('split_p', 0.0)
     probes: dict = {'messages': 0, 'render_exceptions': 0}
+    pressured = []
+    if plan.get('pipe'):
+        # a slow helper: its stdin pipe takes `capacity` bytes and gains as much again every `refill_every`
+        pressured = [hh for name, hh in (('hj', hj), ('ht', ht)) if plan['pipe']['helper'] in (name, 'both')]
+        for hh in pressured:
+            hh.capacity = plan['pipe']['capacity']
+
+        def refill() -> None:
+            for hh in pressured:
+                if hh.capacity is not None:
+                    hh.capacity += plan['pipe']['capacity']
+            w.after(plan['pipe']['refill_every'], refill)
+
+        w.after(plan['pipe']['refill_every'], refill)
     violations: list[dict] = []
     render_log: list = []
 
@@ -241,6 +260,15 @@ def execute(plan: dict) -> dict:
         if finished['t'] is None and (done or now > 30.0):
             finished['t'] = now + plan['gap'] * 2 + 0.5
         if finished['t'] is not None and now >= finished['t']:
+            if pressured and any(hh.capacity is not None for hh in pressured):
+                # the helper catches up: everything queued must now come out, whole
+                for hh in pressured:
+                    probes['partial_writes'] = probes.get('partial_writes', 0) + hh.partial_writes
+                    probes['eagain'] = probes.get('eagain', 0) + hh.eagains
+                    hh.capacity = None
+                finished['t'] = now + 3.0
+                w.after(0.5, driver)
+                return
             judge(w, plan, kinds, speakers, hj, ht, render_log, planted_lines, violations, probes)
             w.signal('SHUTDOWN')
             return
@@ -290,9 +318,20 @@ def marker_in_key(obj) -> str | None:
     return None
 
 
+def bad_char(ln: str) -> str | None:
+    """a control character (Unicode category Cc) or anything str.splitlines() takes for a line boundary"""
+    import unicodedata
+
+    for c in ln:
+        if unicodedata.category(c) == 'Cc' or c in ('\u2028', '\u2029'):
+            return f'U+{ord(c):04X}'
+    return None
+
+
 def check_json_line(ln: str, peers: set[str]) -> tuple[str, str] | None:
-    if any(ord(c) < 0x20 for c in ln):
-        return 'control-character', 'a raw control character in the line'
+    bc = bad_char(ln)
+    if bc:
+        return 'control-character', f'a raw control character or line break ({bc}) in the line'
     try:
         ev = json.loads(ln, object_pairs_hook=_pairs, parse_constant=_no_const)
     except Dup as exc:
@@ -349,8 +388,9 @@ def judge(w, plan, kinds, speakers, hj, ht, render_log, planted, violations, pro
             if not ln:
                 continue
             probes['text_lines'] = probes.get('text_lines', 0) + 1
-            if any(ord(c) < 0x20 or ord(c) == 0x7F for c in ln):
-                violations.append(viol('C13/text-control-character', f'API v4 text helper: control character in: {ln[:260]!r}', version=4))
+            bc = bad_char(ln)
+            if bc:
+                violations.append(viol('C13/text-control-character', f'API v4 text helper: control character or line break {bc} in: {ln[:260]!r}', version=4, char=bc))
                 return
             if ln.startswith(' header 0x') and all(c in '0123456789ABCDEFabcdefx hedrboy' for c in ln):
                 continue  # the raw packet line the version-4 text encoder puts inside an update block
